@@ -4,7 +4,7 @@ import os
 HERE = os.path.dirname(os.path.dirname(os.path.abspath(__file__)))
 
 
-def write(pid, tier, seed, harness, conds, results, violations, harness_errors, kf_lines, validated, wall):
+def write(pid, tier, seed, harness, conds, results, violations, harness_errors, kf_lines, validated, wall, conf=None):
     import z3
     rs = [results[c.id] for c in conds]
     samples = []
@@ -25,7 +25,8 @@ def write(pid, tier, seed, harness, conds, results, violations, harness_errors, 
         "transitions": max(1, sum(int(r["queries"]) for r in rs)),
         "traces_validated_against_impl": int(validated),
         "samples": samples,
-        "exhaustive": bool(rs) and confirmed == len(rs),
+        "exhaustive": bool(rs) and confirmed == len(rs) and (conf or {}).get("ok") is not False,
+        "model_conformance": conf or {"ok": None},
         "explanation": "states = execution paths of the real pyrepseq code explored symbolically (each path = one "
                        "equivalence class of inputs); transitions = SMT queries discharged; "
                        "traces_validated = solver-produced witnesses re-executed on the real, unmodelled stack "
